@@ -29,20 +29,22 @@ Proof.
 Qed.
 
 (* ---------- field updates ---------- *)
+Lemma mkStep nd mx r r' : NWF nd mx (rn r') -> length (rx_dev r') = nd -> r_oob r' = false -> r_slots r' = r_slots r -> r_q r' = r_q r -> Step nd mx r r'.
+Proof. intros. split; [split; [split|]|split]; auto. Qed.
 Lemma with_rn_step nd mx r n' : G nd mx r -> NWF nd mx n' -> Step nd mx r (with_rn r n').
-Proof. intros [[H1 H2] H3] Hn. repeat split; auto. Qed.
+Proof. intros [[H1 H2] H3] Hn. apply mkStep; auto. Qed.
 Lemma with_devx_step nd mx r i x : G nd mx r -> Step nd mx r (with_devx r i x).
-Proof. intros [[H1 H2] H3]. repeat split; auto. simpl. rewrite zset_len; auto. Qed.
+Proof. intros [[H1 H2] H3]. apply mkStep; auto. simpl. rewrite zset_len; auto. Qed.
 Lemma with_devinfo_changed_step nd mx r : G nd mx r -> Step nd mx r (with_devinfo_changed r).
-Proof. intros [[H1 H2] H3]. repeat split; auto. Qed.
+Proof. intros [[H1 H2] H3]. apply mkStep; auto. Qed.
 Lemma with_sync_step nd mx r s : G nd mx r -> Step nd mx r (with_sync r s).
-Proof. intros [[H1 H2] H3]. repeat split; auto. Qed.
+Proof. intros [[H1 H2] H3]. apply mkStep; auto. Qed.
 Lemma with_clk_step nd mx r c : G nd mx r -> Step nd mx r (with_clk r c).
-Proof. intros [[H1 H2] H3]. repeat split; auto. Qed.
+Proof. intros [[H1 H2] H3]. apply mkStep; auto. Qed.
 Lemma millis64_step nd mx r : G nd mx r -> Step nd mx r (fst (millis64 r)).
 Proof. intros H. unfold millis64. destruct (w64 r); simpl; auto with safe. apply with_clk_step; auto. Qed.
 Lemma with_open_G nd mx r st sc : G nd mx r -> G nd mx (with_open r st sc).
-Proof. intros [[H1 H2] H3]. repeat split; auto; apply H1. Qed.
+Proof. intros [[H1 H2] H3]. split; [split|]; auto. Qed.
 
 Lemma G_get_dev_ok nd mx r i : G nd mx r -> dev_ok (get_dev (rn r) i).
 Proof. intros [[H _] _]. eapply get_dev_ok; eauto. Qed.
@@ -77,6 +79,13 @@ Lemma find_source_device_ne nd mx r src : G nd mx r -> (find_source_device r src
 Proof. intros H E. destruct (find_source_device_range nd mx r src H); lia. Qed.
 
 (* ---------- tactics ---------- *)
+(* compose the Step facts in the context, following the source state syntactically; leaves the last leg if no hypothesis provides it *)
+Ltac chain :=
+  lazymatch goal with
+  | H : Step _ _ ?a ?b |- Step _ _ ?a ?b => exact H
+  | H : Step _ _ ?a ?b |- Step _ _ ?a ?c => apply (Step_trans _ _ _ _ _ H); chain
+  | |- _ => idtac
+  end.
 (* pose the specification of a call that returns (node, events) before destructing it *)
 Ltac spec2 L S V := pose proof L as [S V]; cbn [fst snd] in S, V.
 
@@ -121,7 +130,7 @@ Lemma send_tpdt_ok nd mx r i r' ev ok : send_tpdt r i = (r', ev, ok) -> G nd mx 
 Proof.
   intros E H Hi. unfold send_tpdt in E. cbv zeta in E. rewrite (chk_dev_in _ _ _ _ H Hi) in E.
   match type of E with rsend (set_dev_tp r i ?a ?b ?c) _ _ = _ => pose proof (set_dev_tp_ok nd mx r i a b c H Hi) as S1 end.
-  destruct (rsend_ok _ _ _ _ _ _ _ _ E (Step_G _ _ _ _ S1)) as [S2 V]. split; auto. eapply Step_trans; eauto.
+  destruct (rsend_ok _ _ _ _ _ _ _ _ E (Step_G _ _ _ _ S1)) as [S2 V]. split; [chain|auto].
 Qed.
 Lemma send_tpdt_burst_ok nd mx i : forall k r r' ev ok, send_tpdt_burst k r i = (r', ev, ok) -> G nd mx r -> 0 <= i < Z.of_nat nd ->
   Step nd mx r r' /\ evs_ok ev.
@@ -132,7 +141,7 @@ Proof.
     destruct (send_tpdt r i) as [[r1 ev1] ok1] eqn:E1. destruct (send_tpdt_ok _ _ _ _ _ _ _ E1 H Hi) as [S1 V1].
     destruct ok1; [|inversion E; subst; auto].
     destruct (send_tpdt_burst k r1 i) as [[r2 ev2] ok2] eqn:E2. inversion E; subst.
-    destruct (IHk _ _ _ _ E2 (Step_G _ _ _ _ S1) Hi) as [S2 V2]. split; auto with safe. eapply Step_trans; eauto.
+    destruct (IHk _ _ _ _ E2 (Step_G _ _ _ _ S1) Hi) as [S2 V2]. split; [chain|auto with safe].
 Qed.
 Lemma send_pending_tp_ok nd mx r i : G nd mx r -> 0 <= i < Z.of_nat nd ->
   Step nd mx r (fst (send_pending_tp r i)) /\ evs_ok (snd (send_pending_tp r i)).
@@ -145,8 +154,8 @@ Proof.
     match goal with |- context [set_dev_tp r1 i ?a ?b ?c] => pose proof (set_dev_tp_ok nd mx r1 i a b c (Step_G _ _ _ _ S1) Hi) as S2;
       set (r2 := set_dev_tp r1 i a b c) in * end.
     destruct (has_all_dt_sent _); cbn [fst snd]; split; auto.
-    + eapply Step_trans; [eauto|]. eapply Step_trans; [eauto|]. apply end_send_tp_r_ok; eauto with safe.
-    + eapply Step_trans; eauto.
+    + chain. apply end_send_tp_r_ok; eauto with safe.
+    + chain.
   - cbn [fst snd]. split; auto with safe. apply end_send_tp_r_ok; auto.
 Qed.
 
@@ -172,16 +181,16 @@ Proof.
   - destruct restart; auto with safe.
     pose proof (set_src_ok nd mx r i 14 true H Hi ltac:(lia)) as S1.
     destruct (same_as_sibling _ i).
-    + eapply Step_trans; [eauto|]. apply IHfuel; eauto with safe.
-    + eapply Step_trans; [eauto|]. apply set_addr_changed_ok; eauto with safe.
+    + chain. apply IHfuel; eauto with safe.
+    + chain. apply set_addr_changed_ok; eauto with safe.
   - destruct (negb _).
     + match goal with |- context [set_src r i ?s false] => assert (S1 : Step nd mx r (set_src r i s false)) end.
       { apply set_src_ok; auto. unfold c_N2kMaxCanBusAddress. destruct (_ >? 251) eqn:E; lia. }
       destruct (same_as_sibling _ i).
-      * eapply Step_trans; [eauto|]. apply IHfuel; eauto with safe.
-      * eapply Step_trans; [eauto|]. apply set_addr_changed_ok; eauto with safe.
+      * chain. apply IHfuel; eauto with safe.
+      * chain. apply set_addr_changed_ok; eauto with safe.
     + pose proof (set_src_ok nd mx r i c_N2kNullCanBusAddress false H Hi ltac:(unfold c_N2kNullCanBusAddress; lia)) as S1.
-      eapply Step_trans; [eauto|]. apply set_addr_changed_ok; eauto with safe.
+      chain. apply set_addr_changed_ok; eauto with safe.
 Qed.
 
 Lemma rstart_claim_ok nd mx r i : G nd mx r -> 0 <= i < Z.of_nat nd ->
@@ -210,16 +219,16 @@ Proof.
   destruct (_ <? _); [apply rsend_claim_ok; auto|].
   pose proof (claim_started_ok nd mx (rn r) i) as Hc. destruct (claim_started (rn r) i) as [n1 started]; cbn [fst] in Hc.
   assert (S1 : Step nd mx r (if d_name (get_dev (rn r) i) =? (if 8 <=? Z.of_nat (length data) then of_le8 data else 2 ^ 64 - 1) then with_rn r n1 else r)).
-  { destruct (_ =? _); auto with safe. apply with_rn_step; auto. apply Hc. apply H. }
-  set (r1 := if _ =? _ then with_rn r n1 else r) in *.
+  { destruct (d_name _ =? _); auto with safe. apply with_rn_step; auto. apply Hc. apply H. }
+  set (r1 := if d_name _ =? _ then with_rn r n1 else r) in *.
   destruct (_ && started).
   - pose proof (set_name_ok nd mx r1 i (bump_instance (d_name (get_dev (rn r) i))) (Step_G _ _ _ _ S1) Hi) as S2.
     pose proof (with_devinfo_changed_step nd mx _ (Step_G _ _ _ _ S2)) as S3.
     pose proof (rstart_claim_ok nd mx _ i (Step_G _ _ _ _ S3) Hi) as [S4 V4].
-    split; auto. eapply Step_trans; [eauto|]. eapply Step_trans; [eauto|]. eapply Step_trans; eauto.
+    split; [chain|auto].
   - pose proof (next_address_ok nd mx i false 300 r1 (Step_G _ _ _ _ S1) Hi) as S2.
     pose proof (rstart_claim_ok nd mx _ i (Step_G _ _ _ _ S2) Hi) as [S4 V4].
-    split; auto. eapply Step_trans; [eauto|]. eapply Step_trans; eauto.
+    split; [chain|auto].
 Qed.
 
 Lemma commanded_one_ok nd mx r nm newaddr i : G nd mx r -> 0 <= i < Z.of_nat nd -> 0 <= newaddr <= 255 ->
@@ -231,7 +240,7 @@ Proof.
   pose proof (set_src_ok nd mx r i newaddr true H Hi Ha) as S1.
   pose proof (rstart_claim_ok nd mx _ i (Step_G _ _ _ _ S1) Hi) as [S2 V2].
   destruct (rstart_claim _ i) as [r1 ev]; cbn [fst snd] in *. split; auto.
-  eapply Step_trans; [eauto|]. eapply Step_trans; [eauto|]. apply set_addr_changed_ok; eauto with safe.
+  chain. apply set_addr_changed_ok; eauto with safe.
 Qed.
 Lemma commanded_all_ok nd mx nm newaddr : 0 <= newaddr <= 255 -> forall k r i, G nd mx r -> 0 <= i -> i + Z.of_nat k <= Z.of_nat nd ->
   Step nd mx r (fst (commanded_all k r nm newaddr i)) /\ evs_ok (snd (commanded_all k r nm newaddr i)).
@@ -241,7 +250,7 @@ Proof.
   destruct (commanded_one r nm newaddr i) as [r1 ev1]; cbn [fst snd] in *.
   pose proof (IHk r1 (i+1) (Step_G _ _ _ _ S1) ltac:(lia) ltac:(lia)) as [S2 V2].
   destruct (commanded_all k r1 nm newaddr (i+1)) as [r2 ev2]; cbn [fst snd] in *.
-  split; auto with safe. eapply Step_trans; eauto.
+  split; [chain|auto with safe].
 Qed.
 Lemma G_devs_len nd mx r : G nd mx r -> length (n_devs (rn r)) = nd.
 Proof. intros [[[H _] _] _]; auto. Qed.
@@ -267,14 +276,14 @@ Lemma send_product_info_ok nd mx r i : G nd mx r -> 0 <= i < Z.of_nat nd ->
 Proof.
   intros H Hi. unfold send_product_info. cbv zeta. rewrite (chk_dev_in _ _ _ _ H Hi).
   match goal with |- context [rsend r ?m i] => pose proof (rsend_ok' nd mx r m i H) as [S V]; destruct (rsend r m i) as [[r1 ev] ok] end.
-  cbn [fst snd] in *. split; auto. eapply Step_trans; [eauto|]. apply set_pending_ok; eauto with safe.
+  cbn [fst snd] in *. split; [chain; apply set_pending_ok; eauto with safe|auto].
 Qed.
 Lemma send_config_info_ok nd mx r i : G nd mx r -> 0 <= i < Z.of_nat nd ->
   Step nd mx r (fst (send_config_info r i)) /\ evs_ok (snd (send_config_info r i)).
 Proof.
   intros H Hi. unfold send_config_info. cbv zeta. rewrite (chk_dev_in _ _ _ _ H Hi).
   match goal with |- context [rsend r ?m i] => pose proof (rsend_ok' nd mx r m i H) as [S V]; destruct (rsend r m i) as [[r1 ev] ok] end.
-  cbn [fst snd] in *. split; auto. eapply Step_trans; [eauto|]. apply set_pending_ok; eauto with safe.
+  cbn [fst snd] in *. split; [chain; apply set_pending_ok; eauto with safe|auto].
 Qed.
 
 Lemma evs_note c : evs_ok [EvNote c]. Proof. repeat constructor. Qed.
@@ -288,20 +297,20 @@ Proof.
   set (r0 := with_rn r n1) in *. pose proof (Step_G _ _ _ _ S0) as H0.
   destruct started; cbn [fst snd]; auto with safe.
   destruct (rpgn =? 60928).
-  { pose proof (rsend_claim_ok nd mx r0 255 i H0) as [S1 V1]. split; auto. eapply Step_trans; eauto. }
+  { pose proof (rsend_claim_ok nd mx r0 255 i H0) as [S1 V1]. split; [chain|auto]. }
   destruct (rpgn =? 126464).
   { match goal with |- context [rsend r0 ?m i] => pose proof (rsend_ok' nd mx r0 m i H0) as [S1 V1]; destruct (rsend r0 m i) as [[r1 ev1] ok1] end.
     cbn [fst snd] in *.
     match goal with |- context [rsend r1 ?m i] => pose proof (rsend_ok' nd mx r1 m i (Step_G _ _ _ _ S1)) as [S2 V2]; destruct (rsend r1 m i) as [[r2 ev2] ok2] end.
-    cbn [fst snd] in *. split; auto with safe. eapply Step_trans; [eauto|]. eapply Step_trans; eauto. }
+    cbn [fst snd] in *. split; [chain|auto with safe]. }
   destruct (rpgn =? 126996).
-  { pose proof (send_product_info_ok nd mx r0 i H0 Hi) as [S1 V1]. split; auto. eapply Step_trans; eauto. }
+  { pose proof (send_product_info_ok nd mx r0 i H0 Hi) as [S1 V1]. split; [chain|auto]. }
   destruct (rpgn =? 126998).
-  { pose proof (send_config_info_ok nd mx r0 i H0 Hi) as [S1 V1]. split; auto. eapply Step_trans; eauto. }
+  { pose proof (send_config_info_ok nd mx r0 i H0 Hi) as [S1 V1]. split; [chain|auto]. }
   destruct (match c_iso_handler (r_cfg r0) with Some acc => _ | None => _ end) as [[|]|]; cbn [fst snd]; auto using evs_note with safe.
   destruct addressed; cbn [fst snd]; auto with safe.
   match goal with |- context [rsend r0 ?m i] => pose proof (rsend_ok' nd mx r0 m i H0) as [S1 V1]; destruct (rsend r0 m i) as [[r1 ev1] ok1] end.
-  cbn [fst snd] in *. split; auto. eapply Step_trans; eauto.
+  cbn [fst snd] in *. split; [chain|auto].
 Qed.
 Lemma respond_all_ok nd mx req rpgn : forall k r i, G nd mx r -> 0 <= i -> i + Z.of_nat k <= Z.of_nat nd ->
   Step nd mx r (fst (respond_all k r req rpgn i)) /\ evs_ok (snd (respond_all k r req rpgn i)).
@@ -311,7 +320,7 @@ Proof.
   destruct (respond_iso_request r req false rpgn i) as [r1 ev1]; cbn [fst snd] in *.
   pose proof (IHk r1 (i+1) (Step_G _ _ _ _ S1) ltac:(lia) ltac:(lia)) as [S2 V2].
   destruct (respond_all k r1 req rpgn (i+1)) as [r2 ev2]; cbn [fst snd] in *.
-  split; auto with safe. eapply Step_trans; eauto.
+  split; [chain|auto with safe].
 Qed.
 Lemma handle_iso_request_ok nd mx r s : G nd mx r ->
   Step nd mx r (fst (handle_iso_request r s)) /\ evs_ok (snd (handle_iso_request r s)).
@@ -336,7 +345,7 @@ Proof.
                   else (r1, [])) -> Step nd mx r1 (fst p) /\ evs_ok (snd p)).
   { intros p ->. destruct (sched_is_time _ _ _); cbn [fst snd]; auto with safe.
     pose proof (rsend_claim_ok nd mx r1 255 i H1) as [S V]. destruct (rsend_claim r1 255 i) as [r' ev]; cbn [fst snd] in *.
-    split; auto. eapply Step_trans; [eauto|]. apply set_pending_ok; eauto with safe. }
+    split; [chain; apply set_pending_ok; eauto with safe|auto]. }
   destruct (if sched_is_time (w64 r1) (now r1) (x_pend_claim (get_devx r1 i)) then _ else _) as [r2 ev2].
   destruct (X2 _ eq_refl) as [S2 V2]; cbn [fst snd] in *. pose proof (Step_G _ _ _ _ S2) as H2.
   assert (X3 : Step nd mx r2 (fst (if sched_is_time (w64 r2) (now r2) (x_pend_prod (get_devx r2 i)) then send_product_info r2 i else (r2, []))) /\
@@ -349,7 +358,7 @@ Proof.
   { destruct (sched_is_time _ _ _); cbn [fst snd]; auto with safe. apply send_config_info_ok; auto. }
   destruct (if sched_is_time (w64 r3) (now r3) (x_pend_conf (get_devx r3 i)) then _ else _) as [r4 ev4].
   destruct X4 as [S4 V4]; cbn [fst snd] in *.
-  split; auto 6 with safe. eapply Step_trans; [eauto|]. eapply Step_trans; [eauto|]. eapply Step_trans; eauto.
+  split; [chain|auto 6 with safe].
 Qed.
 Lemma send_pending_info_ok nd mx : forall k r i, G nd mx r -> 0 <= i -> i + Z.of_nat k <= Z.of_nat nd ->
   Step nd mx r (fst (send_pending_info k r i)) /\ evs_ok (snd (send_pending_info k r i)).
@@ -361,7 +370,7 @@ Proof.
   destruct (if has_pending r i then _ else _) as [r1 ev1]. destruct X1 as [S1 V1]; cbn [fst snd] in *.
   pose proof (IHk r1 (i+1) (Step_G _ _ _ _ S1) ltac:(lia) ltac:(lia)) as [S2 V2].
   destruct (send_pending_info k r1 (i+1)) as [r2 ev2]; cbn [fst snd] in *.
-  split; auto with safe. eapply Step_trans; eauto.
+  split; [chain|auto with safe].
 Qed.
 
 (* ---------- heartbeat ---------- *)
@@ -376,12 +385,12 @@ Proof.
   pose proof (millis64_step nd mx r0 H0) as S1. destruct (millis64 r0) as [r1 t1]; cbn [fst] in S1. pose proof (Step_G _ _ _ _ S1) as H1.
   destruct (ss_is_time t1 _); cbn [fst snd]; [|split; auto with safe; eapply Step_trans; eauto].
   pose proof (millis64_step nd mx r1 H1) as S2. destruct (millis64 r1) as [r2 t2]; cbn [fst] in S2. pose proof (Step_G _ _ _ _ S2) as H2.
-  match goal with |- context [rsend (with_devx r2 i ?x) ?m i] =>
-    pose proof (with_devx_step nd mx r2 i x H2) as S3; set (r3 := with_devx r2 i x) in *;
+  match goal with |- context [rsend (with_devx r2 i ?x) _ i] =>
+    pose proof (with_devx_step nd mx r2 i x H2) as S3; set (r3 := with_devx r2 i x) in * end.
+  match goal with |- context [rsend r3 ?m i] =>
     pose proof (rsend_ok' nd mx r3 m i (Step_G _ _ _ _ S3)) as [S4 V4]; destruct (rsend r3 m i) as [[r4 ev4] ok4] end.
-  cbn [fst snd] in *. split; auto.
-  eapply Step_trans; [eauto|]. eapply Step_trans; [eauto|]. eapply Step_trans; [eauto|]. eapply Step_trans; [eauto|]. eapply Step_trans; [eauto|].
-  apply with_devx_step; eauto with safe.
+  cbn [fst snd] in *. split; [|auto].
+  chain. apply with_devx_step; eauto with safe.
 Qed.
 Lemma send_heartbeat_ok nd mx : forall k r i, G nd mx r -> 0 <= i -> i + Z.of_nat k <= Z.of_nat nd ->
   Step nd mx r (fst (send_heartbeat k r i)) /\ evs_ok (snd (send_heartbeat k r i)).
@@ -391,7 +400,7 @@ Proof.
   destruct (send_heartbeat_dev r i) as [r1 ev1]; cbn [fst snd] in *.
   pose proof (IHk r1 (i+1) (Step_G _ _ _ _ S1) ltac:(lia) ltac:(lia)) as [S2 V2].
   destruct (send_heartbeat k r1 (i+1)) as [r2 ev2]; cbn [fst snd] in *.
-  split; auto with safe. eapply Step_trans; eauto.
+  split; [chain|auto with safe].
 Qed.
 (* SetHeartbeatIntervalAndOffset indexes Devices[] only inside its loop bounds or after its own range test; the model has no chk_dev here and
    the per-device state lives in rx_dev, so any index keeps the invariant *)
@@ -403,9 +412,9 @@ Proof.
   - match goal with |- Step _ _ _ (set_heartbeat_all k ?r1 _ _ _) => assert (S1 : Step nd mx r r1) end.
     { destruct (_ || _); auto with safe.
       pose proof (millis64_step nd mx r H) as S1. destruct (millis64 r) as [rc t]; cbn [fst] in S1.
-      eapply Step_trans; [eauto|]. eapply Step_trans; [apply with_devx_step; eauto with safe|].
+      chain. eapply Step_trans; [apply with_devx_step; eauto with safe|].
       apply with_devinfo_changed_step. eapply Step_G. apply with_devx_step; eauto with safe. }
-    eapply Step_trans; [eauto|]. apply IHk; eauto with safe.
+    chain. apply IHk; eauto with safe.
 Qed.
 
 (* ---------- Open ---------- *)
@@ -420,7 +429,7 @@ Proof.
   destruct (rstart_claim r0 i) as [r1 ev1]; cbn [fst snd] in *.
   pose proof (IHk r1 (i+1) (Step_G _ _ _ _ S1) ltac:(lia) ltac:(lia)) as [S2 V2].
   destruct (start_claim_all k r1 (i+1)) as [r2 ev2]; cbn [fst snd] in *.
-  split; auto with safe. eapply Step_trans; [eauto|]. eapply Step_trans; eauto.
+  split; [chain|auto with safe].
 Qed.
 
 (* Open(): keeps the invariant and the slots; the receive queue is kept or emptied ("read rubbish out from CAN controller") *)
@@ -447,7 +456,7 @@ Proof.
       pose proof (set_heartbeat_all_ok nd mx c_DefaultHeartbeatInterval 10000 (length (n_devs (rn (with_sync r2c ts)))) _ 0 (Step_G _ _ _ _ S4)) as S5.
       cbn [fst snd].
       assert (S : Step nd mx r1 (set_heartbeat_all (length (n_devs (rn (with_sync r2c ts)))) (with_sync r2c ts) 0 c_DefaultHeartbeatInterval 10000)).
-      { eapply Step_trans; [eauto|]. eapply Step_trans; [eauto|]. eapply Step_trans; eauto. }
+      { chain. }
       destruct S as (HG & Hs & Hq). split; auto. split; [rewrite Hs; auto|]. split; [left; rewrite Hq; auto|].
       apply evs_app; auto. apply evs_note.
     + split; [|auto with safe]. destruct H0 as [[Ha Hb] Hc]. repeat split; auto.
